@@ -4,3 +4,4 @@ import OidcModel.Proofs.C04
 import OidcModel.Proofs.C07
 import OidcModel.Proofs.C12
 import OidcModel.Proofs.C14
+import OidcModel.Proofs.C05
